@@ -298,9 +298,20 @@ def _spawn_shard(prop, tier, i, out, mode):
     env.pop("VERIF_PROCESS_MODE", None)
     if mode == "K":
         env["VERIF_PROCESS_MODE"] = "K"
-    return subprocess.Popen([sys.executable] + (["-O"] if mode == "O" else []) + ["-B", "-m", "vlib.runner", prop, "--tier", tier,
-                                                                                "--shard", str(i), "--out", out], cwd=VERIF, env=env,
-                            stdout=subprocess.DEVNULL, stderr=subprocess.PIPE)
+    # (stderr goes to a file beside the result: a child that writes more than a pipe holds - thousands of warnings, say - must not block)
+    with open(out + ".stderr", "wb") as errf:
+        return subprocess.Popen([sys.executable] + (["-O"] if mode == "O" else []) + ["-B", "-m", "vlib.runner", prop, "--tier", tier,
+                                                                                    "--shard", str(i), "--out", out], cwd=VERIF, env=env,
+                                stdout=subprocess.DEVNULL, stderr=errf)
+
+
+def _stderr_of(out):
+    try:
+        with open(out + ".stderr", "rb") as f:
+            f.seek(max(0, os.path.getsize(out + ".stderr") - 4000))
+            return f.read().decode("utf-8", "replace")
+    except OSError:
+        return ""
 
 
 def _run_parallel(prop, tier, nshards, merged, jobs, shard_timeout):
@@ -327,7 +338,7 @@ def _run_parallel(prop, tier, nshards, merged, jobs, shard_timeout):
                         merged.inconclusive_because(f"shard {i}: wall-clock watchdog ({shard_timeout}s) fired")
                         del running[i]
                     continue
-                err = p.stderr.read().decode("utf-8", "replace")
+                err = _stderr_of(out)
                 del running[i]
                 if rc != 0 or not os.path.exists(out):
                     merged.inconclusive_because(f"shard {i}: process ended with status {rc}: {err[-800:]}")
@@ -451,7 +462,7 @@ def main(argv=None):
                         p.wait()
                         merged.inconclusive_because(f"side shard (mode {mode}): wall-clock watchdog fired")
                     else:
-                        err = p.stderr.read().decode("utf-8", "replace")
+                        err = _stderr_of(side_out)
                         if p.returncode != 0 or not os.path.exists(side_out):
                             merged.inconclusive_because(f"side shard (mode {mode}): process ended with status {p.returncode}: {err[-800:]}")
                         else:
